@@ -56,6 +56,8 @@ type Instance struct {
 	FormPool            map[string]int
 
 	in        *Interner
+	feasCache map[string]string
+	CacheHits int
 	snap      *heapSnap
 	goldenIDs map[int][]int
 	oblLabels map[string]int
@@ -134,6 +136,7 @@ func (inst *Instance) Run(P *Program, solverName string, timeoutMs int, seed int
 	inst.in = NewInterner(goldenList(inst.Lang))
 	inst.in.ID("")
 	inst.goldenIDs = map[int][]int{}
+	inst.feasCache = map[string]string{}
 	inst.oblLabels = map[string]int{}
 	inst.reached = map[string]int{}
 	inst.Notes = map[string]int{}
